@@ -140,7 +140,8 @@ class Impl:
     def op_reset(self):
         import PEPit
         self.o = {"nullP": PEPit.null_point, "nullE": PEPit.null_expression}; self.pep = PEP(); return "ok"
-    def op_fn_decl(self, n, cls, reuse, inf, *rest):
+    def op_fn_new(self, n, cls, reuse, inf, *rest): return self.op_fn_decl(n, cls, reuse, inf, *rest, direct=True)
+    def op_fn_decl(self, n, cls, reuse, inf, *rest, direct=False):
         part = None
         rest = list(rest)
         if rest and rest[-1].startswith("partition="):
@@ -161,7 +162,7 @@ class Impl:
                     kw[p] = float(next(it))
         if "reuse_gradient" in inspect.signature(C.__init__).parameters:
             kw["reuse_gradient"] = (reuse == "1")
-        self.o[n] = self.pep.declare_function(C, **kw); return "ok"
+        self.o[n] = C(**kw) if direct else self.pep.declare_function(C, **kw); return "ok"
     def op_fn_adjoint(self, n, f): self.o[n] = self.o[f].T; return "ok"
     def op_fn_lin(self, n, c1, a, c2, b): self.o[n] = self.R(c1) * self.o[a] + self.R(c2) * self.o[b]; return "ok"
     def op_fn_add(self, n, a, b): self.o[n] = self.o[a] + self.o[b]; return "ok"
@@ -503,7 +504,10 @@ class Prog:
         if cls == "BlockSmoothConvexFunction": ps = self.rnd.choice([["1", "2", "4"], ["1", "1", "1"], ["2", "2", "1/2"]])[:partition[1]]
         if inf: ps = ps[:-1]
         r = self.rnd.random() < .5 if reuse is None else reuse
-        self.emit("fn.decl %s %s %d %d %s%s" % (n, cls, r, inf, " ".join(ps), (" partition=" + partition[0]) if partition else ""))
+        import zlib
+        # one declaration in four calls the class constructor directly (no random draw: the other choices of the program stay what they were)
+        op = "fn.new" if zlib.crc32(("%s %s %s %d" % (n, cls, " ".join(ps), len(self.lines))).encode()) % 4 == 0 else "fn.decl"
+        self.emit("%s %s %s %d %d %s%s" % (op, n, cls, r, inf, " ".join(ps), (" partition=" + partition[0]) if partition else ""))
         self.fcls[n] = cls; self.fparams = getattr(self, "fparams", {}); self.fparams[n] = (cls, bool(inf))
         return n
     def setparam(self, f):
